@@ -197,6 +197,63 @@ func execEvent(op string, args []string) string {
 			}
 		}
 		return "ok"
+	case "accessors_pure":
+		// <ver> <route t|w|u|h> <hex id>:<hex json>: the read accessors are pure (C19's model theorem event_accessors_read_only, C03's
+		// "re-parses ... to an event with the same ..."): after every read accessor - ToHeaderedJSON() included, twice - the event's
+		// JSON() is byte for byte what it was, and the event answers the accessors as before.  The event is loaded the ways a server
+		// loads stored events: from a caller's buffer that has spare capacity (t, w), through the untrusted constructor (u), through
+		// its own headered form (h).  ok | bad:<what>
+		v, err := verOf(args[0])
+		if err != nil {
+			return "err:version"
+		}
+		id, js := splitEv(args[2])
+		roomy := append(make([]byte, 0, len(js)+256), js...)
+		var p gmsl.PDU
+		switch args[1] {
+		case "t":
+			p, err = v.NewEventFromTrustedJSON(roomy, false)
+		case "w":
+			p, err = v.NewEventFromTrustedJSONWithEventID(id, roomy, false)
+		case "u":
+			p, err = v.NewEventFromUntrustedJSON(roomy)
+		case "h":
+			var q gmsl.PDU
+			if q, err = v.NewEventFromTrustedJSONWithEventID(id, roomy, false); err == nil {
+				var hj []byte
+				if hj, err = q.ToHeaderedJSON(); err == nil {
+					p, err = gmsl.NewEventFromHeaderedJSON(hj, false)
+				}
+			}
+		default:
+			return "bad-op"
+		}
+		if err != nil || p == nil || reflect.ValueOf(p).IsNil() {
+			return "ok"
+		}
+		before := append([]byte{}, p.JSON()...)
+		t0 := pduTuple(p, true)
+		for i := 0; i < 2; i++ {
+			_, _ = p.ToHeaderedJSON()
+			_ = pduTuple(p, true)
+			_ = p.Redacts()
+			_, _ = p.Membership()
+			_, _ = p.JoinRule()
+			_, _ = p.PowerLevels()
+			_, _ = p.HistoryVisibility()
+			_ = p.Unsigned()
+			_ = p.Content()
+		}
+		if !bytes.Equal(before, p.JSON()) {
+			return "bad:JSON()-changed-by-read-accessors"
+		}
+		if pduTuple(p, true) != t0 {
+			return "bad:accessors-answer-differently-after-reads"
+		}
+		if _, err := v.NewEventFromTrustedJSONWithEventID(p.EventID(), p.JSON(), p.Redacted()); err != nil {
+			return "bad:own-JSON-no-longer-parses"
+		}
+		return "ok"
 	case "parse_trusted":
 		v, err := verOf(args[0])
 		if err != nil {
@@ -1230,6 +1287,9 @@ func emitParseAll(o *Out, r *Rng, label, ver string, text []byte, id string) {
 	hv := ver
 	im := o.Do("parse_untrusted", hv, hx(text))
 	o.Count(label + ".untrusted." + outcomeClass(im))
+	if strings.HasPrefix(im, "ok:") {
+		o.Do("accessors_pure", hv, Pick(r, []string{"t", "w", "u", "h"}), hx([]byte(id))+":"+hx(text))
+	}
 	if strings.HasPrefix(im, "ok:") || strings.Contains(im, "persistable") {
 		v := o.Do("untrusted_view", hv, hx(text))
 		o.Count("view." + strings.SplitN(v, ":", 2)[0] + "." + outcomeClass(im))
